@@ -11,8 +11,10 @@ import (
 	"context"
 	"fmt"
 	"math"
+	"math/big"
 	"sort"
 	"strconv"
+	"strings"
 	"time"
 
 	"github.com/blevesearch/bleve/v2"
@@ -60,6 +62,34 @@ const (
 	polyMargin  = 3e-6 // degrees
 	maxRangeTerms = 2500
 )
+
+// Z literals as explicit binary constructors: Coq 8.16 interprets a 20-digit decimal numeral in
+// ~7 ms (and a hexadecimal one in ~40 ms) but parses the constructor form in ~0.4 ms, and a quick
+// run prints tens of thousands of 64-bit values.
+func zcBig(n *big.Int) cf.T {
+	switch n.Sign() {
+	case 0:
+		return "Z0"
+	case -1:
+		return cf.T("(Z.opp " + string(zcBig(new(big.Int).Neg(n))) + ")")
+	}
+	var sb strings.Builder
+	sb.WriteString("(Zpos ")
+	bits := n.BitLen()
+	for i := 0; i < bits-1; i++ {
+		if n.Bit(i) == 1 {
+			sb.WriteString("(xI ")
+		} else {
+			sb.WriteString("(xO ")
+		}
+	}
+	sb.WriteString("xH")
+	sb.WriteString(strings.Repeat(")", bits))
+	return cf.T(sb.String())
+}
+func zc(u uint64) cf.T   { return zcBig(new(big.Int).SetUint64(u)) }
+func zi(i int64) cf.T    { return zcBig(big.NewInt(i)) }
+func termZ(t []byte) cf.T { return zcBig(new(big.Int).SetBytes(t)) }
 
 func fb(f float64) uint64 { return math.Float64bits(f) }
 func bf(b uint64) float64 { return math.Float64frombits(b) }
@@ -332,7 +362,28 @@ func gen(f vh.Flags, r *vrand.R, emit func(In)) {
 			fb(safeEdge(maxLon, -180, 360)), fb(safeEdge(maxLat, -90, 180))}
 		emit(In{Kind: "range", Box: box, CheckB: !r.Chance(1, 4)})
 	}
-	nb, nd, np, ns := f.N(120, 6000), f.N(110, 5500), f.N(70, 3500), f.N(30, 1500)
+	// API-level scenes are generated per kind and emitted round-robin, so that the Coq evaluation
+	// cost (box scenes are the expensive ones) is spread evenly over the case shards
+	var scenes [4][]In
+	nb, nd, np, ns := f.N(100, 5000), f.N(100, 5000), f.N(70, 3500), f.N(30, 1500)
+	emitAPI := func(in In) {
+		i := map[string]int{"box": 0, "dist": 1, "poly": 2, "sort": 3}[in.Kind]
+		scenes[i] = append(scenes[i], in)
+	}
+	defer func() {
+		for i := 0; ; i++ {
+			any := false
+			for k := range scenes {
+				if i < len(scenes[k]) {
+					emit(scenes[k][i])
+					any = true
+				}
+			}
+			if !any {
+				return
+			}
+		}
+	}()
 	for k := 0; k < nb; k++ {
 		tlLon, tlLat, brLon, brLat, note := genBox(r)
 		probe := func() Pt {
@@ -344,7 +395,7 @@ func gen(f vh.Flags, r *vrand.R, emit func(In)) {
 			}
 			return probeRect(r, tlLon, brLat, brLon, tlLat)
 		}
-		emit(In{Kind: "box", Engine: engineFor(k), Box: []uint64{fb(tlLon), fb(tlLat), fb(brLon), fb(brLat)},
+		emitAPI(In{Kind: "box", Engine: engineFor(k), Box: []uint64{fb(tlLon), fb(tlLat), fb(brLon), fb(brLat)},
 			Docs: makeDocs(r, probe), Note: note})
 	}
 	for k := 0; k < nd; k++ {
@@ -385,7 +436,7 @@ func gen(f vh.Flags, r *vrand.R, emit func(In)) {
 				return destination(c, 2*math.Pi*r.Float(), ang*(1+eps))
 			}
 		}
-		emit(In{Kind: "dist", Engine: engineFor(k), P: &c, Radius: fb(rad), Docs: makeDocs(r, probe), Note: note})
+		emitAPI(In{Kind: "dist", Engine: engineFor(k), P: &c, Radius: fb(rad), Docs: makeDocs(r, probe), Note: note})
 	}
 	for k := 0; k < np; k++ {
 		poly, cx, cy, rx, ry := genPolygon(r)
@@ -407,7 +458,7 @@ func gen(f vh.Flags, r *vrand.R, emit func(In)) {
 				return mkPt(cx+rx*1.3*(2*r.Float()-1), cy+ry*1.3*(2*r.Float()-1))
 			}
 		}
-		emit(In{Kind: "poly", Engine: engineFor(k), Poly: poly, Docs: makeDocs(r, probe)})
+		emitAPI(In{Kind: "poly", Engine: engineFor(k), Poly: poly, Docs: makeDocs(r, probe)})
 	}
 	for k := 0; k < ns; k++ {
 		c := mkPt(edgeLon(r), edgeLat(r))
@@ -426,7 +477,7 @@ func gen(f vh.Flags, r *vrand.R, emit func(In)) {
 			}
 			docs[i] = []Pt{p}
 		}
-		emit(In{Kind: "sort", Engine: engineFor(k), P: &c, Docs: docs, Desc: r.Chance(1, 3)})
+		emitAPI(In{Kind: "sort", Engine: engineFor(k), P: &c, Docs: docs, Desc: r.Chance(1, 3)})
 	}
 }
 
@@ -696,22 +747,22 @@ func sceneStats(docs [][]Pt, hits []bool) (nontrivial bool, hist []string) {
 }
 
 func ptTerm(p Pt) cf.T {
-	return cf.Sprintf("{| p_lon := %d; p_lat := %d; p_hash := %d |}", p.Lon, p.Lat, geo.MortonHash(p.lon(), p.lat()))
+	return cf.App("Build_pt", zc(p.Lon), zc(p.Lat), zc(geo.MortonHash(p.lon(), p.lat())))
 }
 
 func exec(in In) vh.Result {
 	switch in.Kind {
 	case "il":
-		return vh.Result{Term: cf.App("CInterleave", cf.U(in.X), cf.U(in.Y), cf.U(numeric.Interleave(in.X, in.Y))),
+		return vh.Result{Term: cf.App("CInterleave", zc(in.X), zc(in.Y), zc(numeric.Interleave(in.X, in.Y))),
 			Nontrivial: in.X != 0 && in.Y != 0, Hist: []string{"il"}}
 	case "dl":
-		return vh.Result{Term: cf.App("CDeinterleave", cf.U(in.X), cf.U(numeric.Deinterleave(in.X))),
+		return vh.Result{Term: cf.App("CDeinterleave", zc(in.X), zc(numeric.Deinterleave(in.X))),
 			Nontrivial: in.X != 0, Hist: []string{"dl"}}
 	case "hash":
 		h := geo.MortonHash(in.P.lon(), in.P.lat())
-		return vh.Result{Term: cf.App("CHash", cf.U(in.P.Lon), cf.U(in.P.Lat), cf.U(h)), Nontrivial: h != 0, Hist: []string{"hash"}}
+		return vh.Result{Term: cf.App("CHash", zc(in.P.Lon), zc(in.P.Lat), zc(h)), Nontrivial: h != 0, Hist: []string{"hash"}}
 	case "unhash":
-		return vh.Result{Term: cf.App("CUnhash", cf.U(in.X), cf.U(fb(geo.MortonUnhashLon(in.X))), cf.U(fb(geo.MortonUnhashLat(in.X)))),
+		return vh.Result{Term: cf.App("CUnhash", zc(in.X), zc(fb(geo.MortonUnhashLon(in.X))), zc(fb(geo.MortonUnhashLat(in.X)))),
 			Nontrivial: in.X != 0, Hist: []string{"unhash"}}
 	case "range":
 		var on, not [][]byte
@@ -728,8 +779,8 @@ func exec(in In) vh.Result {
 		if len(on)+len(not) > maxRangeTerms {
 			return vh.Result{Skip: true, Hist: []string{"range:too-many-terms"}}
 		}
-		return vh.Result{Term: cf.App("CRange", cf.U(in.Box[0]), cf.U(in.Box[1]), cf.U(in.Box[2]), cf.U(in.Box[3]), cf.Bool(in.CheckB),
-			cf.ListOf(on, cf.Bytes), cf.ListOf(not, cf.Bytes)),
+		return vh.Result{Term: cf.App("CRange", zc(in.Box[0]), zc(in.Box[1]), zc(in.Box[2]), zc(in.Box[3]), cf.Bool(in.CheckB),
+			cf.ListOf(on, termZ), cf.ListOf(not, termZ)),
 			Nontrivial: len(on) > 0 && len(not) > 0, Hist: []string{"range", fmt.Sprintf("range:terms<=%d", bucket(len(on)+len(not)))}}
 	case "box":
 		tlLon, tlLat, brLon, brLat := bf(in.Box[0]), bf(in.Box[1]), bf(in.Box[2]), bf(in.Box[3])
@@ -773,7 +824,7 @@ func exec(in In) vh.Result {
 		if cls != "" {
 			hist = append(hist, "first-only:box:"+in.Engine)
 		}
-		return vh.Result{Term: cf.App("CBox", engineTerm(in.Engine), cf.U(in.Box[0]), cf.U(in.Box[1]), cf.U(in.Box[2]), cf.U(in.Box[3]),
+		return vh.Result{Term: cf.App("CBox", engineTerm(in.Engine), zc(in.Box[0]), zc(in.Box[1]), zc(in.Box[2]), zc(in.Box[3]),
 			cf.ListOf(in.Docs, func(d []Pt) cf.T { return cf.ListOf(d, ptTerm) }), cf.ListOf(hits, cf.Bool)),
 			Nontrivial: nt, Class: cls, Hist: hist}
 	case "dist", "poly":
@@ -781,14 +832,14 @@ func exec(in In) vh.Result {
 		var res vh.Result
 		var ok bool
 		var classify func(Pt) int
-		kind := 0
+		kind := cf.T("KDistance")
 		if in.Kind == "dist" {
 			radius := bf(in.Radius)
 			q := bleve.NewGeoDistanceQuery(in.P.lon(), in.P.lat(), strconv.FormatFloat(radius, 'g', -1, 64)+"m")
 			order, res, ok = runQuery(in, q, nil)
 			classify = func(p Pt) int { return classCircle(*in.P, p, radius) }
 		} else {
-			kind = 1
+			kind = "KPolygon"
 			var pts []geo.Point
 			for _, p := range in.Poly {
 				pts = append(pts, geo.Point{Lon: p.lon(), Lat: p.lat()})
@@ -810,9 +861,11 @@ func exec(in In) vh.Result {
 		if cls != "" {
 			hist = append(hist, "first-only:"+in.Kind+":"+in.Engine)
 		}
-		return vh.Result{Term: cf.App("CShape", engineTerm(in.Engine), cf.Int(kind),
+		return vh.Result{Term: cf.App("CShape", engineTerm(in.Engine), kind,
 			cf.ListOf(in.Docs, func(d []Pt) cf.T {
-				return cf.ListOf(d, func(p Pt) cf.T { return cf.Pair(cf.U(geo.MortonHash(p.lon(), p.lat())), cf.Int(classify(p))) })
+				return cf.ListOf(d, func(p Pt) cf.T {
+					return cf.Pair(zc(geo.MortonHash(p.lon(), p.lat())), []cf.T{"PIn", "POut", "PNear"}[classify(p)])
+				})
 			}), cf.ListOf(hits, cf.Bool)),
 			Nontrivial: nt, Class: cls, Hist: hist}
 	case "sort":
@@ -833,7 +886,7 @@ func exec(in In) vh.Result {
 			lo = append(lo, int64(math.Floor(l*1e6)))
 			hi = append(hi, int64(math.Ceil(h*1e6)))
 		}
-		return vh.Result{Term: cf.App("CSort", cf.Bool(in.Desc), cf.ListOf(lo, cf.Z), cf.ListOf(hi, cf.Z), cf.ListOf(order, cf.Int)),
+		return vh.Result{Term: cf.App("CSort", cf.Bool(in.Desc), cf.ListOf(lo, zi), cf.ListOf(hi, zi), cf.ListOf(order, cf.Int)),
 			Nontrivial: !sort.IntsAreSorted(order), Hist: []string{"sort:" + in.Engine}}
 	}
 	return vh.Result{Skip: true}
@@ -857,6 +910,6 @@ func main() {
 		Rule: "function level: numeric.Interleave/Deinterleave, geo.MortonHash/MortonUnhashLon/Lat on grid-boundary values (0, 2^32-1, powers of two +-1, multiples of 2^18 and those minus one = corners of the recursion's cells), decoded grid points +-1 ulp, coordinate bounds, random; searcher.ComputeGeoRange term lists for boxes from 1e-7 to ~1 degree whose edges keep 0.2 grid steps away from cell corners (re-checked in Coq); " +
 			"API level (scorch, scorch+s2 plugin, upsidedown; 4-9 documents with 0-3 points each, several batches): bounding boxes tiny to world-wide, date-line crossing, edges on the coordinate bounds or on decoded cell corners, probe points at edge +- {0,3e-8..1e-3} degrees, on level-14 cell boundaries, at +-180/+-90; distance queries 1 m .. 20000 km incl. pole-containing and date-line crossing circles, probe points at radius*(1 +- {0,1e-9..0.3}); simple convex/concave polygons of either orientation with probes near vertices and edges; distance sort asc/desc on single-valued documents; " +
 			"non-trivial: non-zero function inputs, range cases with both term lists non-empty, scenes whose hits are neither none nor all or that contain a multi-valued document, sorts that reorder",
-		ShardSize: 25,
+		ShardSize: 20,
 	}, gen, exec)
 }
